@@ -5,9 +5,11 @@ mod c05;
 mod c06;
 mod c10;
 mod c11;
+mod c12;
 mod c13;
 mod c14;
 mod c15;
+mod c18;
 mod probes;
 mod c19;
 
@@ -24,6 +26,8 @@ fn main() {
         "c06" => c06::run(&args),
         "c10" => c10::run(&args),
         "c11" => c11::run(&args),
+        "c18a" => c18::run(&args),
+        "c12" => c12::run(&args),
         "c13" => c13::run(&args),
         "c15" => c15::run(&args),
         "c14" | "c03-maps" => c14::run(&args.sub, &args),
